@@ -69,6 +69,78 @@ theorem merge_places_contents_counterexample_symoverdir :
   rw [placed_iff_failures]
   decide
 
+/-! ### set-group-ID directories
+
+The abstract file system gives an object created inside a directory that carries `S_ISGID` the *directory's*
+group (and a sub-directory the bit as well), as Linux does — so `merge_places_contents_partial` above, which
+quantifies over every `pre`, states in particular that entries merged into a set-group-ID directory of a foreign
+group end up with their **recorded** group: that is the work of the unconditional `lchown` of `ensure_perms`. -/
+
+/-- **Group inheritance**: a file, symlink or fifo created at a free path whose parent is a set-group-ID directory of
+group `g` belongs to group `g`, whatever the group of the creating process is; a directory as well, and it carries
+the set-group-ID bit itself. -/
+theorem sgid_dir_group_inherited (env : Env) (fs fs' : Fs) (p : Path) (g : Nat) (op : Op)
+    (hg : fs.sgidParent p = some g)
+    (hop : (∃ m, op = .creat p m) ∨ (∃ t, op = .symlink t p) ∨ (∃ m, op = .mkfifo p m) ∨ (∃ m, op = .mkdir p m))
+    (hv : fs.view p = none) (hs : step env fs op = .ok fs') :
+    ∃ j nd, fs'.view p = some (j, nd) ∧ nd.gid = g ∧ (nd.kind = .dir → nd.mode &&& 0o2000 ≠ 0) := by
+  have hgid : newGid env fs p = g := by simp [newGid, hg]
+  rcases hop with ⟨m, rfl⟩ | ⟨t, rfl⟩ | ⟨m, rfl⟩ | ⟨m, rfl⟩
+  · simp only [step, hv] at hs
+    split at hs
+    · cases hs
+    · injection hs with hs; subst hs
+      exact ⟨fs.next, ⟨.file "", m, env.uid, newGid env fs p, 0⟩, by simp, hgid, by simp⟩
+  · simp only [step, hv] at hs
+    split at hs
+    · cases hs
+    · simp at hs; subst hs
+      exact ⟨fs.next, ⟨.sym t, 0o777, env.uid, newGid env fs p, 0⟩, by simp, hgid, by simp⟩
+  · simp only [step, hv] at hs
+    split at hs
+    · cases hs
+    · simp at hs; subst hs
+      exact ⟨fs.next, ⟨.fifo, m, env.uid, newGid env fs p, 0⟩, by simp, hgid, by simp⟩
+  · simp only [step, hv] at hs
+    split at hs
+    · cases hs
+    · simp at hs; subst hs
+      refine ⟨fs.next, ⟨.dir, newDirMode fs p (m &&& 0o1777), env.uid, newGid env fs p, 0⟩, by simp, hgid, fun _ => ?_⟩
+      simp only [newDirMode, hg, Option.isSome_some, if_true]
+      intro h0
+      have h1 : ∀ k : Nat, (k ||| 0o2000) &&& 0o2000 = 0o2000 := by
+        intro k
+        apply Nat.eq_of_testBit_eq; intro i
+        simp only [Nat.testBit_and, Nat.testBit_or]
+        cases k.testBit i <;> cases (0o2000 : Nat).testBit i <;> rfl
+      have h1 := h1 (m &&& 0o1777)
+      rw [h0] at h1; exact absurd h1 (by decide)
+
+/-- a root with the set-group-ID directory `games` (root:35, `02775`) holding a file of the previous build -/
+def exSgidPre : Fs :=
+  ⟨[([], 1, ⟨.dir, 0o755, 0, 0, 0⟩), (["games"], 2, ⟨.dir, 0o2775, 0, 35, 0⟩),
+    (["score", "games"], 3, ⟨.file "6f6c64", 0o664, 0, 35, 1000⟩)], 4⟩
+/-- entries recorded as `0:0` (the identity of the merging process) that go below `games`: a replaced file, a new
+file, a symlink, a fifo, a sub-directory and a file below two parents that are not recorded -/
+def exSgidEs : List Entry :=
+  [⟨["games"], .dir, 0o2775, 0, 35, 9⟩, ⟨["score", "games"], .reg "6e6577" none, 0o644, 0, 0, 77⟩,
+   ⟨["new", "games"], .reg "6e" none, 0o4711, 0, 0, 77⟩, ⟨["l", "games"], .sym "new" , 0o777, 0, 0, 8⟩,
+   ⟨["p", "games"], .fifo, 0o600, 0, 0, 8⟩, ⟨["sub", "games"], .dir, 0o755, 0, 0, 8⟩,
+   ⟨["f", "deep", "auto", "games"], .reg "" none, 0o644, 0, 0, 8⟩]
+
+/-- non-vacuity for set-group-ID roots: the merge succeeds, every entry carries its recorded `0:0` although each
+was *created* with group 35 (log: the `creat` is followed by `lchown … 0 0`), and the only path left with the
+inherited group are the unrecorded parents `games/auto` (bit inherited) and `games/auto/deep` (snakeoil's `ensure_dirs`
+re-applies `0750` to the last directory it makes below a set-group-ID one) -/
+example : (mergeContents exEnv true exSgidEs exSgidPre).2.isOk = true ∧
+    placedFailures exSgidPre exSgidEs (mergeContents exEnv true exSgidEs exSgidPre).1.fs = [] ∧
+    ((mergeContents exEnv true exSgidEs exSgidPre).1.fs.view ["new", "games"]).map (·.2.gid) = some 0 ∧
+    ((applyOp exEnv exSgidPre (.creat ["new", "games"] 0o644)).view ["new", "games"]).map (·.2.gid) = some 35 ∧
+    ((mergeContents exEnv true exSgidEs exSgidPre).1.fs.view ["auto", "games"]).map (fun v => (v.2.gid, v.2.mode)) =
+      some (35, 0o2750) ∧
+    ((mergeContents exEnv true exSgidEs exSgidPre).1.fs.view ["deep", "auto", "games"]).map (fun v => (v.2.gid, v.2.mode)) =
+      some (35, 0o750) := by decide
+
 /-- **Frame**: a successful merge leaves every path alone that is not an entry location, a missing parent of
 one, or the `'#new'` sibling of a replaced entry — stated for *all* paths, including their inode numbers (so
 no unrelated file is modified through a shared inode either). -/
